@@ -3,7 +3,7 @@
    label, and the counters as tallies of the sections. *)
 From Coq Require Import List ZArith NArith Bool Lia Sorting.Permutation.
 From Pcfg Require Import Str Multiword Detect Segment DetectProofsStr DetectProofsDrive DetectProofsSimple DetectProofsMw
-     DetectProofsSeg DetectProofsWeb DetectProofsKbd DetectProofsCount.
+     DetectProofsSeg DetectProofsWeb DetectProofsKbd DetectProofsCount DetectProofsAdj.
 Import ListNotations.
 Open Scope Z_scope.
 
@@ -58,11 +58,11 @@ Definition counters_ok (r : parsed) : Prop :=
 
 Theorem parse_full : forall m pw, good pw -> pw <> [] ->
   exists r, PARSE m pw = POk r /\ tiles pm pw (p_sections r) /\ Forall sound (p_sections r) /\
-            Forall (fun y => snd y <> None) (p_sections r) /\ counters_ok r.
+            Forall (fun y => snd y <> None) (p_sections r) /\ counters_ok r /\ no_adj (isC 6) (p_sections r).
 Proof.
   intros m pw Hg Hne. unfold parse.
   destruct (kw_ok isalpha isdigit lower_c kbs fp_words min_run year_prefixes context_strings min_run_4 (length pw) pw (Nat.le_refl _) Hne)
-    as (sl0 & walks & -> & Ht0 & Hs0 & Hwalks & Hcl0).
+    as (sl0 & walks & -> & Ht0 & Hs0 & Hwalks & Hcl0 & N0).
   pose proof (tiles_good isalpha isdigit lower_c _ _ Hg Ht0) as Hi0.
   destruct (email_split_ok_proved isalpha isdigit lower_c kbs min_run tlds year_prefixes context_strings) as (Hem_err & Hem).
   destruct (website_split_ok_proved isalpha isdigit lower_c kbs min_run tlds year_prefixes context_strings tlds_nonempty) as (Hweb_err & Hweb).
@@ -168,7 +168,25 @@ Proof.
   rewrite Eo in Ht7, Hs7, Hl7. simpl in Ht7, Hs7, Hl7.
   destruct (base_structure_total sl7 Hl7) as (sup & ls & Eb). rewrite Eb.
   destruct (base_structure_spec sl7 sup ls Eb) as (Hlabels & Hsup).
+  (* adjacency *)
+  assert (N7 : no_adj (isC 6) sl7).
+  { pose proof (drive_no_adj _ _ false good
+                  (email_shape isalpha isdigit lower_c kbs min_run tlds year_prefixes context_strings) sl0 sl1 f1 E1 Hi0 N0) as N1.
+    pose proof (drive_no_adj _ _ false good
+                  (website_shape isalpha isdigit lower_c kbs min_run tlds year_prefixes context_strings tlds_nonempty) sl1 sl2 f2 E2 Hi1 N1) as N2.
+    pose proof (drive_no_adj _ _ true good
+                  (year_shape isalpha isdigit lower_c kbs min_run year_prefixes context_strings year_prefix_len) sl2 sl3 f3 E3 Hi2 N2) as N3.
+    pose proof (drive_no_adj _ _ true good
+                  (context_shape isalpha isdigit lower_c kbs min_run year_prefixes context_strings) sl3 sl4 f4 E4 Hi3 N3) as N4.
+    pose proof (drive_no_adj _ _ false good
+                  (alpha_shape2 isalpha isdigit isupper lower_c kbs min_run year_prefixes context_strings
+                     mw_threshold mw_min_len mw_max_len min_len_pos m) sl4 sl5 f5 E5 Hi4 N4) as N5.
+    assert (F6 : filter (isC 6) sl5 = []).
+    { apply Permutation_nil. rewrite <- (Z0 6%nat ltac:(discriminate)). chain B1 B2 B3 B4 B5 B6. }
+    pose proof (digit_stage_no_adj isdigit sl5 sl6 f6 E6 N5 F6) as N6.
+    pose proof (other_no_adj sl6 N6) as N7'. now rewrite Eo in N7'. }
   eexists. split; [reflexivity|]. simpl. split; [assumption|]. split; [assumption|]. split; [assumption|].
+  split; [|exact N7].
   (* counters *)
   assert (pre : forall c sl, Permutation (filter (isC c) sl0) (filter (isC c) sl) -> c <> 0%nat -> filter (isC c) sl = []).
   { intros c sl Hp Hc. apply Permutation_nil. rewrite <- (Z0 c Hc). exact Hp. }
